@@ -171,6 +171,30 @@ def run(rep: Report) -> None:
     rep.floor("failing-step scenarios", n_fail, 6)
 
     # ----------------------------------------------------- (c) who may write
+    # states/actions/disturbances are assigned by __init__/init_vars, next_states by __init__
+    # and ElementWithVars.step - or by a helper that is only ever called from those
+    def callers_of(fn):
+        out = []
+        for g in prog.all_functions():
+            if g is fn:
+                continue
+            for node in ast.walk(g.node):
+                if isinstance(node, ast.Call):
+                    f = node.func
+                    nm_ = f.attr if isinstance(f, ast.Attribute) else f.id if isinstance(f, ast.Name) else None
+                    if nm_ == fn.name:
+                        out.append(g)
+                        break
+        return out
+
+    def writer_ok(fn, base_ok, depth=0):
+        if base_ok(fn):
+            return True
+        if depth >= 3 or not fn.name.startswith("_"):
+            return False
+        cs = callers_of(fn)
+        return bool(cs) and all(writer_ok(c, base_ok, depth + 1) for c in cs)
+
     n_stores = 0
     for mi in prog.modules.values():
         for fn in [f for f in prog.all_functions() if f.module == mi.name]:
@@ -178,19 +202,19 @@ def run(rep: Report) -> None:
                 if isinstance(node, ast.Attribute) and isinstance(node.ctx, (ast.Store, ast.Del)):
                     if node.attr in GROUPS:
                         n_stores += 1
-                        ok = fn.name in ("__init__", "init_vars")
+                        ok = writer_ok(fn, lambda f: f.name in ("__init__", "init_vars"))
                         rep.check(ok, "typestate-writers", f"`{node.attr}` assigned in {fn.qualname}",
                                   f"{mi.relpath}:{node.lineno} {fn.qualname}",
-                                  f"`{node.attr}` is assigned outside __init__/init_vars: the readiness scan "
-                                  "cannot know about it", key=f"writer|{node.attr}|{fn.qualname}")
+                                  f"`{node.attr}` is assigned outside __init__/init_vars (and their private helpers): "
+                                  "the readiness scan cannot know about it", key=f"writer|{node.attr}|{fn.qualname}")
                     if node.attr == "next_states":
                         n_stores += 1
-                        ok = fn.name == "__init__" or fn.qualname == "ElementWithVars.step"
+                        ok = writer_ok(fn, lambda f: f.name == "__init__" or f.qualname == "ElementWithVars.step")
                         rep.check(ok, "typestate-writers", f"`next_states` assigned in {fn.qualname}",
                                   f"{mi.relpath}:{node.lineno} {fn.qualname}",
-                                  "`next_states` is assigned outside __init__/ElementWithVars.step",
+                                  "`next_states` is assigned outside __init__/ElementWithVars.step (and its private helpers)",
                                   key=f"writer|next_states|{fn.qualname}")
-    rep.floor("typestate field stores", n_stores, 12)
+    rep.floor("typestate field stores", n_stores, 6)
 
     # ------------------- (c') network enumerations of typestate are never memoised
     # to_function reads the elements' typestate through these properties of Network; a
